@@ -178,3 +178,11 @@ def run(ctx):
 
     r = ctx.rule("R1d", "aarch64 native code reads variable slot i at i * (bytes per slot) from x0 and writes output i likewise", 19)
     ctx.guarded(r, XC.check_strides)
+    # the native evaluators read variable i through the pointer they were handed; a clause that calls out must hand it back
+    from .. import asmcopy as AK_
+    from .. import asmchecks as AC_
+
+    r = ctx.rule("R1e", "native call helpers restore the pointer the variables are read through (and every other pointer) after an out-of-line call", 8)
+    for kind in AC_.ALL:
+        for n_ in ("call_fn_unary", "call_fn_binary"):
+            ctx.guarded(r, AK_.check_call_helper, kind, n_)
